@@ -411,7 +411,7 @@ func allQueries(adds []add, procs []procRec, extraApps, extraEntries []string) [
 			push(query{Kind: "status", App: ap, Entry: en})
 			push(query{Kind: "list", App: ap, Entry: en})
 			for _, n := range nodes {
-				if len(qs) < 60 {
+				if len(qs) < 45 {
 					push(query{Kind: "list", App: ap, Entry: en, Node: n})
 				}
 			}
@@ -607,7 +607,7 @@ func TestC24(t *testing.T) {
 			emit(e, pc.adds, pc.procs, "corpus")
 		}
 	}
-	n := r.N(50, 600)
+	n := r.N(40, 600)
 	for i := 0; i < n; i++ {
 		mode := 0
 		switch i % 10 {
